@@ -20,6 +20,7 @@ ENGINES = [
     {"name": "arith", "path": "harness/eng_arith.go", "serves_properties": ["C39"], "kind_free_text": "differential driver of pkg/util/precision against Model/Precision.lean with a math/big oracle"},
     {"name": "timers", "path": "harness/eng_timers.go", "serves_properties": ["C40"], "kind_free_text": "drives real timers.EpochTimers with counting handlers against Model/Timers.lean"},
     {"name": "gov", "path": "harness/eng_gov.go", "serves_properties": ["C36"], "kind_free_text": "enumerates current/main-network/inner-ring key lists through the real newAlphabetList/updateInnerRing against Model/Governance.lean"},
+    {"name": "meta", "path": "harness/eng_meta.go", "serves_properties": ["C01", "C02", "C06", "C07"], "kind_free_text": "history driver of the real metabase (meta.DB on a temp bolt file, settable epoch) against Model/Meta.lean + Spec/MetaRef.lean"},
     {"name": "ec", "path": "harness/eng_ec.go", "serves_properties": ["C21", "C22"], "kind_free_text": "differential driver of internal/ec against Model/EC.lean"},
 ]
 
@@ -152,3 +153,25 @@ prop("C21",
      rule="rules 1..5/0..3 (thorough 1..8/0..4) x 16 payload lengths 0..4096 x every erasure pattern of <= p+1 parts (quick: <= 60 sampled per case), "
           "3 present/required masks, 6 buffer capacities, 400 seeded multi-rule encodings; non-trivial = erased parts and non-empty payload, or "
           "multi-rule with >= 2 rules; distinct by op")
+
+META_RULE = ("seeded worlds: per sequence every address has ONE fixed header (as ids are header hashes): ids 1..8 get random roles (root, "
+             "first/middle/last split part, link, v1 split member, EC part, EC part of a split child, tombstone, lock, malformed), ids 9..12 are "
+             "virtual parents of one kind each; 8..35 ops per history over put / mark (default, redundant) / delete / revive / container "
+             "inhume+delete / epoch; after EVERY op all views are dumped for all 36 addresses (Exists, Get, Get raw, IsLocked) plus listing "
+             "pages, expired iteration, GetGarbage, counters, container info, on implementation and model, and the model's views are compared "
+             "with the declarative reference; non-trivial = history longer than 5 ops; distinct by history")
+
+prop("C01",
+     theorems=["NeoFS.Meta.status_eq_ref", "NeoFS.Meta.exists_follows_ref", "NeoFS.Meta.get_follows_ref",
+               "NeoFS.Meta.isLocked_iff_live_lock", "NeoFS.Meta.run_wf", "NeoFS.Meta.views_agree_after_any_history"],
+     engines=[dict(name="meta", quick=1, thorough=1)],
+     spec_assertions=["exists-reports", "get-reports", "islocked-", "listing-", "expired-iteration"],
+     claim="Lean proves: every operation of the metabase model keeps buckets well-formed (run_wf: all histories), and on every well-formed bucket the "
+           "status function that Exists/Get/search/EC resolution go through equals the declarative reference rules (tombstone, garbage mark, "
+           "expiry, SOME live lock overrides, two-level parent inheritance), and IsLocked equals 'some live lock exists' - for every address and "
+           "epoch. The model (Model/Meta.lean, a relational model of the bbolt bucket) is tied to the real metabase by a differential run that "
+           "dumps all eight observation points after every op; listing and expired iteration are compared with the reference on every explored state.",
+     note="Trusted: Lean kernel; hand model Model/Meta.lean and bbolt's ordered-map/transaction semantics (tied by correspondence: 540k ops matched in a "
+          "thorough sweep); histories carry valid objects only (one header per id, acyclic parents, validator-accepted expiration strings) - "
+          "malformed metadata (e.g. a parent sharing its children's split id) makes collectChildren recurse forever in the real code and is excluded.",
+     rule=META_RULE)
